@@ -1170,6 +1170,18 @@ Error CodeHolder::flatten() noexcept {
     offset += real_size;
   }
 
+  // An empty section is placed where the next non-empty section starts (or at the end of the code). This is where another
+  // flatten() would put it (behind its extended predecessor), so labels bound in an empty section keep their position.
+  for (size_t i = _sections_by_order.size(); i != 0; i--) {
+    Section* section = _sections_by_order[i - 1];
+    if (section->real_size()) {
+      offset = section->offset();
+    }
+    else {
+      section->set_offset(offset);
+    }
+  }
+
   return Error::kOk;
 }
 
